@@ -97,7 +97,9 @@ def finish(prop, args, seed, t0, obligations, details, functions, assumptions, n
             rel = os.path.join('replays', prop, slug(oid) + '.json')
             with open(os.path.join(HERE, rel), 'w') as f:
                 json.dump({'property': prop, 'obligation': oid, 'verifier_output': details.get(oid, ''), 'backend': 'frame-checker',
-                           'note': 'static frame obligation: the analyser gives no concrete input (no-failing-input-found)',
+                           'note': ('bounded relational run: verifier_output names the failing configuration / operation / cache regime; rerun with '
+                                    'PYTHONPATH=<tree> python tools/cache_relational.py') if oid.startswith('bounded:') else
+                                   'static frame obligation: the analyser gives no concrete input (no-failing-input-found)',
                            'tree': os.environ.get('VERIF_REPO', '/repo')}, f, indent=1)
             if kf is not None:
                 known_hits.append((kf, oid))
@@ -109,8 +111,8 @@ def finish(prop, args, seed, t0, obligations, details, functions, assumptions, n
     missing = sorted(o for o in ledger if o not in obligations)
     live = {o.split('::', 1)[0] for o in obligations}
     missing = [o for o in missing if o.split('::', 1)[0] not in live and not o.startswith('mps-copy:')]
-    n = len(obligations)
-    nd = sum(1 for st in obligations.values() if st in ('proved', 'known-finding'))
+    n = sum(1 for o in obligations if not o.startswith('bounded:'))                      # bounded obligations are never counted as proved
+    nd = sum(1 for o, st in obligations.items() if st in ('proved', 'known-finding') and not o.startswith('bounded:'))
     wall = time.time() - t0
     print(f"[{prop}] tier={args.tier} obligations={n} discharged={nd} backend=frame-checker wall={wall:.1f}s")
     seen = {}
@@ -123,7 +125,8 @@ def finish(prop, args, seed, t0, obligations, details, functions, assumptions, n
     if missing:
         print(f"UNDECIDED: {len(missing)} ledger obligations were not generated on this run (contract no longer binds), e.g. {missing[:3]}")
     for oid, rel in violations:
-        print(f"VIOLATION property={prop} replay={rel} no-failing-input-found")
+        # a bounded relational obligation fails on a concrete (configuration, operation, regime) recorded in the replay file
+        print(f"VIOLATION property={prop} replay={rel}" + ("" if oid.startswith('bounded:') else " no-failing-input-found"))
         print(f"    failed obligation: {oid}: {details.get(oid, '')}")
     status = 0
     if undecided or missing or n == 0:
